@@ -98,6 +98,7 @@ class Idx:
     def __init__(self, v): self.v = v
     def __index__(self): return self.v
     def __vsig__(self): return ('Idx', self.v)
+    def __repr__(self): return '<%s>' % (self.__vsig__(),)   # deterministic: no addresses in str()/repr()/%s
 
 
 class IntOnly:
@@ -105,39 +106,46 @@ class IntOnly:
     def __init__(self, v): self.v = v
     def __int__(self): return self.v
     def __vsig__(self): return ('IntOnly', self.v)
+    def __repr__(self): return '<%s>' % (self.__vsig__(),)   # deterministic: no addresses in str()/repr()/%s
 
 
 class IdxRaises:
     def __index__(self): raise KeyError('IdxRaises')
     def __vsig__(self): return 'IdxRaises'
+    def __repr__(self): return '<%s>' % (self.__vsig__(),)   # deterministic: no addresses in str()/repr()/%s
 
 
 class IdxBad:
     def __index__(self): return 'notint'
     def __vsig__(self): return 'IdxBad'
+    def __repr__(self): return '<%s>' % (self.__vsig__(),)   # deterministic: no addresses in str()/repr()/%s
 
 
 class FloatLike:
     def __init__(self, v): self.v = v
     def __float__(self): return self.v
     def __vsig__(self): return ('FloatLike', self.v)
+    def __repr__(self): return '<%s>' % (self.__vsig__(),)   # deterministic: no addresses in str()/repr()/%s
 
 
 class ComplexLike:
     def __init__(self, v): self.v = v
     def __complex__(self): return self.v
     def __vsig__(self): return ('ComplexLike', self.v)
+    def __repr__(self): return '<%s>' % (self.__vsig__(),)   # deterministic: no addresses in str()/repr()/%s
 
 
 class Unhashable:
     __hash__ = None
     def __eq__(self, o): return isinstance(o, Unhashable)
     def __vsig__(self): return 'Unhashable'
+    def __repr__(self): return '<%s>' % (self.__vsig__(),)   # deterministic: no addresses in str()/repr()/%s
 
 
 class HashRaises:
     def __hash__(self): raise ZeroDivisionError('HashRaises')
     def __vsig__(self): return 'HashRaises'
+    def __repr__(self): return '<%s>' % (self.__vsig__(),)   # deterministic: no addresses in str()/repr()/%s
 
 
 class EqRaises:
@@ -145,6 +153,7 @@ class EqRaises:
     def __hash__(self): return self.h
     def __eq__(self, o): raise ZeroDivisionError('EqRaises')
     def __vsig__(self): return ('EqRaises', self.h)
+    def __repr__(self): return '<%s>' % (self.__vsig__(),)   # deterministic: no addresses in str()/repr()/%s
 
 
 class Obj:
@@ -155,6 +164,7 @@ class Obj:
     def __eq__(self, o): return isinstance(o, Obj) and (self.a, self.k) == (o.a, o.k)
     def __hash__(self): return hash(self.a)
     def __vsig__(self): return ('Obj', self.a, sorted(self.k.items()))
+    def __repr__(self): return '<%s>' % (self.__vsig__(),)   # deterministic: no addresses in str()/repr()/%s
     def __repr__(self): return 'Obj%r' % (self.a,)
 
 
@@ -173,6 +183,7 @@ class IterRaises:
             yield i
         raise self.exc('IterRaises')
     def __vsig__(self): return ('IterRaises', self.n)
+    def __repr__(self): return '<%s>' % (self.__vsig__(),)   # deterministic: no addresses in str()/repr()/%s
 
 
 # ----------------------------------------------------------------------------- pools (generator side)
